@@ -329,7 +329,7 @@ def check(run):
         # 2a'. chains that differ in ONE step (first, intermediate or last) over the same root: consumers must be different invocations
         for ci in range(120 if quick else 1500):
             jugenv.reset(store)
-            kind = rng.choice(['ll', 'dl', 'lll', 'sl'])
+            kind = rng.choice(['ll', 'dl', 'lll', 'sl', 'dk', 'dk', 'ti'])
             base = [[rng.randint(0, 99) for _ in range(3)] for _ in range(3)]
             if kind == 'll':
                 V = base
@@ -337,6 +337,15 @@ def check(run):
             elif kind == 'dl':
                 V = {'a': base[0], 'b': base[1], 'c': base[2]}
                 steps = lambda: [rng.choice('abc'), rng.randrange(3)]
+            elif kind == 'dk':
+                # keys of different types that print alike (1 / '1', (1,) / '(1,)', None / 'None', -1 / '-1')
+                ks_ = [1, '1', 2, '2', (1,), '(1,)', None, 'None', -1, '-1', b'1', "b'1'"]
+                V = {k_: [rng.randint(0, 99) for _ in range(3)] for k_ in ks_}
+                steps = lambda: [rng.choice(ks_), rng.randrange(3)]
+            elif kind == 'ti':
+                # the index is itself a task: two index tasks made by the same function with different arguments
+                V = base
+                steps = lambda: [Task(lib.lit, 7000000 + rng.randrange(10 ** 6), rng.randrange(3)), rng.randrange(3)]
             elif kind == 'lll':
                 V = [base, [list(reversed(r_)) for r_ in base], [[x + 100 for x in r_] for r_ in base]]
                 steps = lambda: [rng.randrange(3), rng.randrange(3), rng.randrange(3)]
@@ -352,18 +361,24 @@ def check(run):
                 for st_ in ss:
                     x = x[st_]
                 return x
+
+            def plainsteps(ss):
+                return [st_.args[1] if isinstance(st_, Task) else st_ for st_ in ss]
             try:
-                e1, e2 = apply(V, s1), apply(V, s2)
+                e1, e2 = apply(V, plainsteps(s1)), apply(V, plainsteps(s2))
             except Exception:
                 continue
-            if s1 == s2 or lib.canon(e1) == lib.canon(e2):
+            if plainsteps(s1) == plainsteps(s2) or lib.canon(e1) == lib.canon(e2):
                 continue
             root = Task(lib.lit, 5000000 + ci, V)
             root.run()
+            for st_ in s1 + s2:
+                if isinstance(st_, Task):
+                    st_.run()
             c1, c2 = Task(lib.same, apply(root, s1)), Task(lib.same, apply(root, s2))
             run.count('one_step_chain_pairs')
             run.case(('chain-pair', ci, run.seed), nontrivial=True)
-            rp = {'kind': 'chain-pair', 'value': V, 'steps1': [repr(x) for x in s1], 'steps2': [repr(x) for x in s2]}
+            rp = {'kind': 'chain-pair', 'value': repr(V), 'steps1': [repr(x) for x in plainsteps(s1)], 'steps2': [repr(x) for x in plainsteps(s2)]}
             c1.run()
             if c2.can_load():
                 run.fail('consumer-takes-sibling-result', 'root value %s: same(root%s) was executed; same(root%s), whose argument is %s instead of %s, is reported as already computed (identifiers %s / %s)'
